@@ -57,7 +57,7 @@ def main(pid, tier, repo, seed, replay):
         import engine_v
         from concurrent.futures import ThreadPoolExecutor
         progs = [prog for prog in prop["v"] if not (prog.get("tier") == "thorough" and tier != "thorough")]
-        with ThreadPoolExecutor(max_workers=4) as ex:
+        with ThreadPoolExecutor(max_workers=8) as ex:
             outcomes.extend(ex.map(lambda prog: run_v(engine_v, repo, prog, pid), progs))
     if prop.get("l"):
         import engine_l
@@ -171,7 +171,7 @@ def run_v(engine_v, repo, prog, pid):
         elif u in units and not (prog.get("exclude") and re.search(prog["exclude"], f["obligation"])):
             if f["obligation"] not in [g["obligation"] for g in o["failures"]]:
                 o["failures"].append(f)
-        elif u in lemmas or u == "":
+        elif u in lemmas or u in ("", "spec", "lemma-import"):
             # lemmas / spec vocabulary do not depend on /repo: a failure there is proof instability
             o["undecided"].append("lemma or spec obligation failed (%s) — not attributable to /repo" % f["obligation"])
         else:
